@@ -19,6 +19,8 @@ import (
 
 	"github.com/siglens/siglens/pkg/ast/pipesearch"
 	"github.com/siglens/siglens/pkg/config"
+	esquery "github.com/siglens/siglens/pkg/es/query"
+	esreader "github.com/siglens/siglens/pkg/es/reader"
 	eswriter "github.com/siglens/siglens/pkg/es/writer"
 	sighooks "github.com/siglens/siglens/pkg/hooks"
 	"github.com/siglens/siglens/pkg/querytracker"
@@ -26,11 +28,13 @@ import (
 	"github.com/siglens/siglens/pkg/segment/pqmr"
 	"github.com/siglens/siglens/pkg/segment/query"
 	pqsmeta "github.com/siglens/siglens/pkg/segment/query/pqs/meta"
+	"github.com/siglens/siglens/pkg/segment/structs"
 	sutils "github.com/siglens/siglens/pkg/segment/utils"
 	"github.com/siglens/siglens/pkg/segment/writer"
 	serverutils "github.com/siglens/siglens/pkg/server/utils"
 	vtable "github.com/siglens/siglens/pkg/virtualtable"
 	log "github.com/sirupsen/logrus"
+	"github.com/valyala/fasthttp"
 )
 
 const tsBase = uint64(1700000000000)
@@ -75,6 +79,8 @@ type Obs struct {
 	Pqs int `json:"pqs"`
 	// ids in the order of the response (only with LayoutCfg.KeepOrder)
 	Order []int `json:"order,omitempty"`
+	// "es:" queries: hits.total reported by the real _search handler
+	Total *int `json:"total,omitempty"`
 }
 
 // logrus hook: remembers the raw/pqs segment counts per qid
@@ -250,7 +256,115 @@ func toInt(v interface{}) (int, bool) {
 	return 0, false
 }
 
+// Elasticsearch query DSL front-end ("es:<request body>").  This is the front-end that produces an equality on the
+// wildcard column with a STRING value ({"term":{"*":"alpha"}}, query_string "*:alpha": ExpressionFilter on "*",
+// SearchType SimpleExpressionAllColumns); the SPL front-end turns `*=alpha` into a word match (MatchWordsAllColumns).
+// Two observations per query, both on the real code:
+//   - the ids: the body parsed by the real ES parser (pkg/es/query ParseRequest), the node executed by the query
+//     pipeline the server runs (pipesearch.RunQueryForNewPipeline, what ParseAndExecutePipeRequest ends in);
+//   - the total: the real _search handler (pkg/es/reader ProcessSearchRequest on an in-process request context);
+//     in this tree it reports hits.total only (its hit rendering is "Old pipeline is deprecated").
+func runEsQuery(idx, body string) Obs {
+	qidCtr++
+	myQid := qidCtr
+	ch := make(chan Obs, 1)
+	go func() {
+		defer func() {
+			if r := recover(); r != nil {
+				ch <- Obs{Err: fmt.Sprintf("panic: %v", r)}
+			}
+		}()
+		var o Obs
+		node, aggs, size, _, err := esquery.ParseRequest([]byte(body), myQid, false)
+		if err != nil || node == nil {
+			ch <- Obs{Err: fmt.Sprintf("es parse: %v", err)}
+			return
+		}
+		ti := structs.InitTableInfo(idx, 0, false, nil)
+		qc := structs.InitQueryContextWithTableInfo(ti, size, 0, 0, false)
+		resp, _, _, err := pipesearch.RunQueryForNewPipeline(nil, myQid, node, aggs, nil, nil, qc, size)
+		if err != nil {
+			ch <- Obs{Err: "error: " + err.Error()}
+			return
+		}
+		if resp == nil {
+			ch <- Obs{Err: "nil response"}
+			return
+		}
+		if len(resp.Errors) > 0 {
+			o.Err = "resp.Errors: " + strings.Join(resp.Errors, "; ")
+		}
+		var ids []int
+		for _, h := range resp.Hits.Hits {
+			if n, ok := toInt(h["id"]); ok {
+				ids = append(ids, n)
+			} else {
+				ids = append(ids, -1)
+			}
+		}
+		sort.Ints(ids)
+		for i, x := range ids {
+			if i > 0 && ids[i-1] == x {
+				o.Dup = true
+				continue
+			}
+			o.Ids = append(o.Ids, x)
+		}
+		// the _search handler itself
+		var ctx fasthttp.RequestCtx
+		ctx.Request.Header.SetMethod("POST")
+		ctx.Request.SetRequestURI("/elastic/" + idx + "/_search?rest_total_hits_as_int=true")
+		ctx.Request.SetBody([]byte(body))
+		ctx.SetUserValue("indexName", idx)
+		esreader.ProcessSearchRequest(&ctx, 0)
+		if ctx.Response.StatusCode() != fasthttp.StatusOK {
+			o.Err = fmt.Sprintf("es status %d: %s", ctx.Response.StatusCode(), string(ctx.Response.Body()))
+			ch <- o
+			return
+		}
+		var er struct {
+			Hits struct {
+				Total interface{} `json:"total"`
+			} `json:"hits"`
+		}
+		dec := json.NewDecoder(strings.NewReader(string(ctx.Response.Body())))
+		dec.UseNumber()
+		if err := dec.Decode(&er); err != nil {
+			o.Err = "es response: " + err.Error()
+			ch <- o
+			return
+		}
+		tot := -1
+		switch t := er.Hits.Total.(type) {
+		case json.Number:
+			n, _ := t.Int64()
+			tot = int(n)
+		case map[string]interface{}:
+			if n, ok := toInt(t["value"]); ok {
+				tot = n
+			}
+		}
+		o.Total = &tot
+		ch <- o
+	}()
+	select {
+	case r := <-ch:
+		r.Raw, r.Pqs = -1, -1
+		paths.mu.Lock()
+		if v, ok := paths.m[myQid]; ok {
+			r.Raw, r.Pqs = v[0], v[1]
+		}
+		paths.mu.Unlock()
+		return r
+	case <-time.After(30 * time.Second):
+		return Obs{Err: "timeout", Raw: -1, Pqs: -1}
+	}
+}
+
 func runQuery(idx, text string) Obs {
+	if strings.HasPrefix(text, "es:") {
+		return runEsQuery(idx, text[3:])
+	}
 	qidCtr++
 	req := map[string]interface{}{
 		"searchText": text, "indexName": idx, "startEpoch": tsBase - 1000, "endEpoch": tsBase + 100000000,
